@@ -856,7 +856,10 @@ func parseRaceReports(stderr string) (out0 []raceReport) {
 					continue
 				}
 				name := strings.TrimSuffix(f, "()")
-				if strings.HasPrefix(name, "runtime.") || strings.HasPrefix(name, "verif/sim/instr/touch.") {
+				// the access is attributed to the innermost library frame: what
+				// lies above it is the standard library or the simulated
+				// transport acting on the library's behalf
+				if !strings.Contains(name, "github.com/mdzio/go-mqtt/") {
 					continue
 				}
 				fn = name
